@@ -52,12 +52,27 @@ def cleanup(sim):
 # ------------------------------------------------------------------ transport
 
 class HTransport(net.SimTransport):
-    """SimTransport that records the point of the server's first close request."""
+    """SimTransport that records the point of the server's first close request.
+
+    Optional mode `sync_loss` (default off): loseConnection() / abortConnection() report the
+    loss to the protocol SYNCHRONOUSLY, before they return - what in-memory transports do
+    (twisted.internet.testing.StringTransportWithDisconnection, loopback-style transports).
+    `on_sync_loss`, if set, is called just before the protocol hears about it (so that a
+    scenario's model can note "connection lost now" before any callback runs)."""
+
+    sync_loss = False
+    on_sync_loss = None
 
     def __init__(self, sim, name="S", hwm=None):
         net.SimTransport.__init__(self, sim, name, ("10.0.0.2", 80), ("10.0.0.1", 40000), hwm)
         self.close_at = None        # len(written) when loseConnection/abortConnection was first called
         self.on_close = None
+
+    def _sync_lost(self, exc):
+        self.sim.fault("loss_reported_inside_loseConnection")
+        if self.on_sync_loss is not None:
+            self.on_sync_loss()
+        self.lose(Failure(exc))
 
     def _mark(self):
         if self.close_at is None:
@@ -66,14 +81,20 @@ class HTransport(net.SimTransport):
                 self.on_close()
 
     def loseConnection(self, _reason=None):
-        if not (self.disconnected or self.aborted):
+        live = not (self.disconnected or self.aborted)
+        if live:
             self._mark()
         net.SimTransport.loseConnection(self)
+        if live and self.sync_loss:
+            self._sync_lost(error.ConnectionDone())
 
     def abortConnection(self):
-        if not (self.disconnected or self.aborted):
+        live = not (self.disconnected or self.aborted)
+        if live:
             self._mark()
         net.SimTransport.abortConnection(self)
+        if live and self.sync_loss:
+            self._sync_lost(error.ConnectionAborted())
 
 
 # ------------------------------------------------------------------ server
@@ -113,7 +134,7 @@ KNOB_DEFAULTS = {"MAX_LENGTH": 16384, "totalHeadersSize": 16384, "maxHeaders": 5
 
 
 class Server:
-    def __init__(self, sim, app, timeout=None, hwm=None, knobs=None, site=None, transport_cls=None):
+    def __init__(self, sim, app, timeout=None, hwm=None, knobs=None, site=None, transport_cls=None, sync_loss=False):
         self.sim = sim
         self.app = app                  # app(server, request, index)
         self.delivered = []             # Delivered, in order
@@ -132,6 +153,8 @@ class Server:
         for k, v in (knobs or {}).items():
             setattr(self.channel, k, v)
         self.t = (transport_cls or HTransport)(sim, "S", hwm)
+        if sync_loss:
+            self.t.sync_loss = True     # HTransport only; default off
         self.t.protocol = self.proto
         self.proto.makeConnection(self.t)
 
